@@ -10,6 +10,9 @@ ROOT = os.path.dirname(os.path.dirname(os.path.abspath(__file__)))
 BEN = os.path.join(ROOT, "benign")
 WT = "/tmp/avt-seed-verify-wt"
 IDS = ["C01", "C02", "C03", "C04", "C05", "C06", "C09", "C10", "C11", "C12", "C13", "C14", "C15", "C16", "C17", "C18", "C19", "C20"]
+if os.environ.get("BENIGN_IDS"):
+    # a subset (e.g. only the checks whose generator or oracle changed since the last full run)
+    IDS = os.environ["BENIGN_IDS"].split(",")
 
 
 def sh(cmd, cwd=None, timeout=3600):
@@ -74,12 +77,12 @@ def do_run():
         finally:
             sh("git -C /repo checkout -- .")
         meta = json.load(open(os.path.join(d, "meta.json")))
-        meta["checks"] = {"all_quick_checks_silent": not alarms, "alarms": alarms}
+        meta["checks"] = {"all_quick_checks_silent": not alarms, "alarms": alarms, "checks_run": IDS}
         json.dump(meta, open(os.path.join(d, "meta.json"), "w"), indent=1)
         rows.append([name, "silent" if not alarms else "ALARM", " ; ".join(alarms)])
         print(rows[-1], flush=True)
     with open(os.path.join(ROOT, "SENSITIVITY-benign.md"), "a") as f:
-        f.write(f"\n## run {time.strftime('%Y-%m-%d %H:%M')} prefix={prefix!r}\n\n| refactoring | all 18 quick checks | alarms |\n|---|---|---|\n")
+        f.write(f"\n## run {time.strftime('%Y-%m-%d %H:%M')} prefix={prefix!r}\n\n| refactoring | quick checks run: {','.join(IDS)} | alarms |\n|---|---|---|\n")
         for r in rows:
             f.write("| " + " | ".join(r) + " |\n")
 
